@@ -1,17 +1,27 @@
 ----------------------------- MODULE Trace_Signer -----------------------------
 (* Trace specification for C06: a trace recorded from the real signer/standard.Service is a       *)
-(* behaviour of Signer.                                                                           *)
-(*   Reset    a new service instance                                                              *)
-(*   Call     the request (operation, slot / epoch, account kinds in request order, failure mode) *)
-(*   Domain   logged by the fake DomainProvider at every request: type name, genesis?, epoch      *)
-(*   Sign     logged by an account wrapper at every signer call: the request positions of the     *)
-(*            accounts it was handed (in the order handed), per position whether the data handed  *)
-(*            for it is the message of THAT position (root / duty fields merkleised by the        *)
-(*            wrapper; for a plain AccountSigner: the finished signing root), and - where the     *)
-(*            domain is handed over separately - which domain it is                               *)
-(*   Return   ok?, and per position: does the signature verify (BLS, in Go) under the key the     *)
-(*            specification names for that position, against SigningRoot(hash_tree_root(container *)
-(*            filled by the driver), domain of DomainReq); is it the zero signature               *)
+(* behaviour of Signer.  One service instance serves a whole history; every line after Reset      *)
+(* carries the id of the request it belongs to (`rid`, requests numbered in call order), and the  *)
+(* lines of overlapping requests interleave as they happened.                                     *)
+(*   Reset      a new service instance and a new chain (fork: the epoch at which it forks)        *)
+(*   Call       the request (operation, slot / epoch, account kinds in request order, failure mode)*)
+(*   DomainReq  logged by the fake DomainProvider when a call arrives: type name, genesis?, epoch *)
+(*   DomainResp logged by the fake DomainProvider when it lets the call return (the driver holds  *)
+(*              it back as long as the schedule says): error?, the domain value returned          *)
+(*              DomainReq / DomainResp are OBSERVATIONS, not obligations: a request for which     *)
+(*              none is logged obtained its domain from memory, which is legal if transparent -   *)
+(*              the silent step Recall; what decides is what was signed (Sign, Return).  A call   *)
+(*              the provider cannot attribute to a request (rid 0) is noted and changes nothing.  *)
+(*   Sign       logged by an account wrapper at every signer call: the request positions of the   *)
+(*              accounts it was handed (in the order handed), per position whether the data handed*)
+(*              for it is the message of THAT position (root / duty fields merkleised by the      *)
+(*              wrapper; for a plain AccountSigner: the finished signing root, built with the     *)
+(*              domain of the request's own type and epoch), and - where the domain is handed     *)
+(*              over separately - which domain value it is                                        *)
+(*   Return     ok?, and per position: does the signature verify (BLS, in Go) under the key the   *)
+(*              specification names for that position, against SigningRoot(hash_tree_root(        *)
+(*              container filled by the driver), chain's domain for DomainReq of THIS request);   *)
+(*              is it the zero signature                                                          *)
 EXTENDS Signer, TraceLib
 
 VARIABLE l
@@ -26,50 +36,77 @@ IsEvent(e) == l <= TraceLen /\ Trace[l].ev = e /\ l' = l + 1
 
 TraceReset ==
     /\ IsEvent("Reset")
-    /\ pc' = "idle"
-    /\ req' = NoCall
-    /\ domreqs' = <<>>
-    /\ signed' = EmptyFn
-    /\ result' = <<>>
+    /\ fork' = Trace[l].fork
+    /\ pc' = [r \in Rids |-> "idle"]
+    /\ req' = [r \in Rids |-> NoCall]
+    /\ domreqs' = [r \in Rids |-> <<>>]
+    /\ dom' = [r \in Rids |-> NoDomain]
+    /\ signed' = [r \in Rids |-> EmptyFn]
+    /\ result' = [r \in Rids |-> <<>>]
 
 TraceCall ==
     /\ IsEvent("Call")
     /\ LET t == Trace[l] IN
-         Call([op |-> t.op, slot |-> t.slot, epoch |-> t.epoch, kinds |-> t.kinds,
-               fail |-> t.fail, failidx |-> t.failidx])
+         /\ t.rid \in Rids
+         /\ Call(t.rid, [op |-> t.op, slot |-> t.slot, epoch |-> t.epoch, kinds |-> t.kinds,
+                         fail |-> t.fail, failidx |-> t.failidx])
 
 \* the request the real code made is the request of the table
 LoggedDomain(t) == [type |-> t.type, genesis |-> t.genesis, epoch |-> t.epoch]
+LoggedValue(d) == [type |-> d.type, ver |-> d.ver]
 
-TraceDomain ==
-    /\ IsEvent("Domain")
-    /\ (FetchDomain \/ RefetchDomain)
-    /\ LoggedDomain(Trace[l]) = DomainReq(req)
-    /\ Trace[l].err = (req.fail = "domain")
+TraceDomainReq ==
+    /\ IsEvent("DomainReq")
+    /\ LET t == Trace[l] IN
+         IF t.rid = 0 THEN UNCHANGED vars
+         ELSE /\ t.rid \in Rids
+              /\ (FetchDomain(t.rid) \/ RefetchDomain(t.rid))
+              /\ LoggedDomain(t) = DomainReq(req[t.rid])
+
+TraceDomainResp ==
+    /\ IsEvent("DomainResp")
+    /\ LET t == Trace[l] IN
+         IF t.rid = 0 THEN UNCHANGED vars
+         ELSE /\ t.rid \in Rids
+              /\ DomainResp(t.rid)
+              /\ t.err = (req[t.rid].fail = "domain")
+              /\ (~t.err) => LoggedValue(t.dom) = dom'[t.rid]      \* the fake chain is the specification's chain
+
+\* silent: the request whose line comes next never asked the provider (or was not seen asking) - it has
+\* its domain from memory
+TraceRecall ==
+    /\ l <= TraceLen
+    /\ Trace[l].ev \in {"Sign", "Return"}
+    /\ Trace[l].rid \in Rids
+    /\ Recall(Trace[l].rid)
+    /\ l' = l
 
 \* a signer call: for every position handed over, the data is that position's message and the
-\* domain (where visible) is the duty's domain
+\* domain (where visible) is the domain of the request's own type and epoch
 TraceSign ==
     /\ IsEvent("Sign")
     /\ LET t == Trace[l] IN
+         /\ t.rid \in Rids
          /\ Len(t.dataok) = Len(t.idx)
          /\ \A j \in 1..Len(t.idx) : t.dataok[j]
-         /\ t.hasdom => LoggedDomain(t.dom) = DomainReq(req)
-         /\ IF t.err THEN SignerFails ELSE SignSome(t.idx)
+         /\ t.hasdom => LoggedValue(t.dom) = dom[t.rid]
+         /\ IF t.err THEN SignerFails(t.rid) ELSE SignSome(t.rid, t.idx)
 
 TraceReturn ==
     /\ IsEvent("Return")
-    /\ LET t == Trace[l] IN
-         IF t.ok
-         THEN /\ Return
-              /\ t.n = Len(req.kinds)
-              /\ \A i \in 1..t.n :
-                    IF result'[i] = Absent
-                    THEN t.zero[i]                          \* withheld by the signer: reported as "none"
-                    ELSE t.verifies[i] /\ ~t.zero[i]        \* verifies for (key i, message i, duty domain)
-         ELSE ReturnErr
+    /\ LET t == Trace[l]
+           r == t.rid
+       IN /\ r \in Rids
+          /\ IF t.ok
+             THEN /\ Return(r)
+                  /\ t.n = Len(req[r].kinds)
+                  /\ \A i \in 1..t.n :
+                        IF result'[r][i] = Absent
+                        THEN t.zero[i]                          \* withheld by the signer: reported as "none"
+                        ELSE t.verifies[i] /\ ~t.zero[i]        \* verifies for (key i, message i, own domain)
+             ELSE ReturnErr(r)
 
-TraceNext == TraceReset \/ TraceCall \/ TraceDomain \/ TraceSign \/ TraceReturn
+TraceNext == TraceReset \/ TraceCall \/ TraceDomainReq \/ TraceDomainResp \/ TraceRecall \/ TraceSign \/ TraceReturn
 
 TraceSpec == TraceInit /\ [][TraceNext]_tvars
 
